@@ -257,6 +257,10 @@ class _TopKConfusionMatrix(_ConfusionMatrix):
     self.k = np.asarray(k, dtype=dtype)
     super().__init__(tp, tn, fp, fn, dtype=dtype)
 
+  def __add__(self, other):
+    cm = super().__add__(other)
+    return _TopKConfusionMatrix(self.k, cm.tp, cm.tn, cm.fp, cm.fn)
+
   def __eq__(self, other):
     """Numerically equals."""
     return np.allclose(self.k, other.k) and super().__eq__(other)
